@@ -716,7 +716,7 @@ func RunC09(e *Env) (int, error) {
 	if err == nil && viol == 0 {
 		viol, err = runC09Proc(e)
 	}
-	ev.Coverage["rule"] = fmt.Sprintf("each run draws one evaluation (stream + layers [+ file chain], then Output json, Output yaml/toml/json-pretty, OutputDocuments) from the program generator and executes it under the reference order (Asc) and %d other iteration schedules (Desc, Rot, Hash, HashN; created-during-range coin 0/0.5/1); every 4th run also interleaves 2-4 evaluations on separate parsers under the seeded task scheduler and compares with the sequential result; every %dth run starts 16 real goroutines in the stock library built with -race; a sample of cases is run as fresh stock CLI processes; non-trivial = the evaluation executed a range over a map with >= 2 keys; distinct = canonical ops x schedule signature", K, realEvery)
+	ev.Coverage["rule"] = fmt.Sprintf("each run draws one evaluation (stream + layers [+ file chain], then Output json, Output yaml/toml/json-pretty, OutputDocuments) from the program generator (incl. key families that a loose comparison ties — 1/01, k7/k07, case, Unicode forms — under order-sensitive consumers, and cross-document references matching their own document) and executes it under the reference order (Asc) and %d other iteration schedules (Desc, Rot, Hash, HashN; created-during-range coin 0/0.5/1); every 4th run also interleaves 2-4 evaluations on separate parsers under the seeded task scheduler and compares with the sequential result; every %dth run starts 16 real goroutines in the stock library built with -race; a sample of cases is run as fresh stock CLI processes; non-trivial = the evaluation executed a range over a map with >= 2 keys; distinct = canonical ops x schedule signature", K, realEvery)
 	ev.Coverage["loop_seconds"] = time.Since(t0).Seconds()
 	ev.Assumptions = []string{
 		"error text is not compared, only success/failure and output bytes",
